@@ -144,6 +144,11 @@ def _zc_post(ctx):
         if name == "ArgumentError" and step * rate < 2:
             REC.held("zc", sig, classes + ["C18:step-too-small"], case)
         elif name == "FindZeroCrossingError":
+            if n >= 4 and not any(samples) and step * rate >= 2 and step < dur:
+                # D16 tolerates the error when the windows the search happens to look at hold no crossing although the recording has
+                # one.  In digital silence every sample is zero - a crossing by itself - so there is no such window.
+                REC.violation(PROP, "zc", "findNearestZeroCrossing", case, "raised FindZeroCrossingError in digital silence (every sample is 0, i.e. a crossing): %d samples" % n, sig, mech)
+                return
             if any(is_crossing(samples, k) for k in range(n)):
                 REC.note("spurious FindZeroCrossingError although the recording has a crossing (recorded, not a violation)")
             REC.held("zc", sig, classes + ["C18:no-crossing-error"], case)
